@@ -207,8 +207,14 @@ def run(ck):
                 lines = ["cfg mode=1 handlers=64 w=20000 k=12", "start", "connect c0 10.1.1.1:1111", "tick"]
                 for j in range(1, rng.range(2, 3)):
                     lines += ["connect c%d 10.1.1.%d:%d" % (j, j + 1, 1111 + j), "tick"]
+            evn = 0
             for c in ch:
                 lines += ["rx c0 " + c.hex(), "tick %d" % (nfr if len(c) > 1 else 2)]
+                if ci % 3 == 2 and evn < 6:
+                    # the server has something of its own to send between two reads of the peer's stream (an event is enqueued and
+                    # transmitted while an APDU of the peer may be half received): what is delivered does not depend on that either
+                    evn += 1
+                    lines += ["enq " + apci.asdu(30, 3, 1, bytes([evn, 0, 0, 0, 0])).hex(), "tick 2"]
             lines.append("tick %d" % nfr)
             tr_scripts.append((sid, lines))
             tmeta[sid] = (tag, data, ch)
